@@ -187,6 +187,9 @@ class Party(sut.BaseAlgorithm):
             row = []
             for k in range(L):
                 v = valid_value(rv, self.st[i]["evse"])
+                if P.get("near_level_pilots") and self.st[i]["evse"]["type"] == "Finite" and rv.random() < P["near_level_pilots"]:
+                    # accepted by the EVSE's 1e-3 A tolerance but not exactly on a level (kept non-negative)
+                    v = max(0.0, v + rv.choice([-1, 1]) * rv.uniform(1e-4, 9e-4))
                 if not P.get("vacant_pilots", True) and not stoch and i not in self.occupied(t0 + k):
                     v = 0
                 row.append(_cast(rv, v))
